@@ -266,6 +266,73 @@ def id_problems(tree, root):
                 got = norm(flat_out(e))
                 if want and want not in got:
                     out.append(("id-on-wrong-text", "author id on <%s>%s</%s> ended up on <%s> with text %r" % (n.tag, (n.text or "")[:20], n.tag, mml.local(e.tag), got[:40])))
+        # ... and it STAYS: a token that comes back as a leaf of its own (same element kind, exactly its text, and no other token of the input
+        # has that text) still carries the author's id.  Tokens that were merged, split or deleted are not judged.
+        in_texts = {}
+        dropped = set()         # tokens inside content that is removed by design (mphantom, annotations): their text coming back is a coincidence
+
+        def mark(n, inside):
+            inside = inside or n.tag in ("mphantom", "annotation", "annotation-xml", "maction", "semantics")
+            if n.kids is None:
+                if inside:
+                    dropped.add(id(n))
+            else:
+                for k in n.kids:
+                    mark(k, inside)
+        mark(tree, False)
+        for n, _ in tree.walk():
+            if n.kids is None and n.tag in TOKEN_TAGS:
+                in_texts.setdefault((n.text or "").strip(), []).append(None if id(n) in dropped else n)
+        for n, _ in tree.walk():
+            if n.tag == "mfenced":      # the fence and separator characters of mfenced become tokens of their own
+                for ch in [n.attrs.get("open", "("), n.attrs.get("close", ")")] + list(n.attrs.get("separators", ",")):
+                    in_texts.setdefault(ch.strip(), []).append(None)
+        out_leaves = {}
+        for e in elems:
+            if len(e) == 0 and mml.local(e.tag) in TOKEN_TAGS:
+                out_leaves.setdefault((e.text or "").strip(), []).append(e)
+        for text, ns in in_texts.items():
+            if len(ns) != 1 or ns[0] is None or not text or len(text) > 12 or not text.isalnum():
+                continue        # (primes, dots, dashes ... are merged into other characters that can coincide with another token: letters and digits only)
+            n = ns[0]
+            i = n.attrs.get("id")
+            if i is None or i in by_id:
+                continue
+            if any(o != text and o and (o in text or text in o) for o in in_texts):
+                continue        # a piece of another token that is split, or the result of merging other tokens, could be this very text
+            cands = out_leaves.get(text, [])
+            if len(cands) == 1 and mml.local(cands[0].tag) == n.tag:
+                if cands[0].get("data-changed") in ("added", "from_mfenced") or cands[0].get("data-added") is not None or text in "\u2061\u2062\u2063\u2064":
+                    continue        # a token the library created (implied operator, fence of an mfenced, placeholder): not the author's token
+                out.append(("author-id-lost", "author id %r of <%s>%s</%s> is gone although the token came back as a leaf of its own (now id %r%s)" % (
+                    i, n.tag, text[:20], n.tag, cands[0].get("id"), ", an author id of another element" if cands[0].get("id") in author else "")))
+        # the same for 2-D elements: the only element of its kind in the input, the only one of that kind in the output
+        two_d = ("mfrac", "msqrt", "mroot", "msub", "msup", "msubsup", "munder", "mover", "munderover", "mtable", "menclose")
+        in_2d, out_2d = {}, {}
+
+        def collect(n, inside):
+            inside = inside or n.tag in ("mphantom", "annotation", "annotation-xml", "maction", "semantics")
+            if n.tag in two_d:
+                in_2d.setdefault(n.tag, []).append(None if inside else n)
+            for k in (n.kids or []):
+                collect(k, inside)
+        collect(tree, False)
+        for e in elems:
+            if mml.local(e.tag) in two_d:
+                out_2d.setdefault(mml.local(e.tag), []).append(e)
+        converts = {"msub": ("msubsup", "mmultiscripts"), "msup": ("msubsup", "mmultiscripts"), "munder": ("munderover",), "mover": ("munderover",), "msqrt": ("mroot",)}
+        all_in_tags = set(n.tag for n, _ in tree.walk())
+        for tag, ns in in_2d.items():
+            if len(ns) != 1 or ns[0] is None or len(out_2d.get(tag, [])) != 1:
+                continue
+            if any(t in all_in_tags for t in converts.get(tag, ())):
+                continue        # an element of this kind can also be what is left of a richer one
+            i = ns[0].attrs.get("id")
+            e = out_2d[tag][0]
+            if i is None or i in by_id or e.get("data-changed") is not None:
+                continue
+            if norm(flat_in(ns[0])) and norm(flat_in(ns[0])) == norm(flat_out(e)):
+                out.append(("author-id-lost-2d", "author id %r of the only <%s> is gone although the only <%s> of the result has the same content (now id %r)" % (i, tag, tag, e.get("id"))))
     return out
 
 
